@@ -86,7 +86,7 @@ CHECKS = {
              'included) and the full property is evaluated on the real reports with Spec.sem as oracle (valid set = derivable '
              'set over all 3^k choices, matrices, bound at the first choice, fin and strict on/off).',
         design_ref='DESIGN.md §5 C01, §10',
-        note='Side condition FuncOk (decidable): names non-empty, no double cast on a right-hand side, loop guards fresh, no reserved names as variables; success of the fuelled fixpoint is a hypothesis; numbering of alternatives via Spec.relabel.'),
+        note='Side condition FuncOk (decidable): names non-empty, loop guard names not themselves used as loop-guard markers (guardsFresh), every variable of the reading found by the variable collector; success of the fuelled fixpoint is a hypothesis; numbering of alternatives via Spec.relabel.'),
     'C02': dict(
         technique='Lean 4 proof (function-level: infinite verdict iff no choice vector derives, both modes; via statement refinement, delta-graph ghost invariant + C11 collapse soundness, C04 exactness) + Lean spec oracle + differential correspondence',
         text='Proved on the model of Analysis.func (Props/C02): the function is reported infinite iff the pointwise calculus '
